@@ -26,7 +26,7 @@ RESULT = "key::CoseKey"
 CENSUS = {
     ("pre", "propagate:" + codec.TRY_MAP),
     ("all", "propagate:<common::Label as common::AsCborValue>::from_cbor_value"),
-    ("all", "err:DuplicateMapKey@contains"),
+    ("all", "err:DuplicateMapKey"),
     ("1", "propagate:<common::RegisteredLabel<T> as common::AsCborValue>::from_cbor_value"),
     ("2", "propagate:" + codec.TRY_NONEMPTY),
     ("3", "propagate:<common::RegisteredLabelWithPrivate<T> as common::AsCborValue>::from_cbor_value"),
